@@ -18,6 +18,13 @@ MenuQ == { <<M("send", 1)>>, <<M("send", 2)>>, <<M("send", 3)>>, <<M("pay", 1)>>
            <<M("grow", 1), M("send", 2)>>, <<M("send", 2), M("send", 2)>> }
 MenuT == MenuQ \cup { <<M("pay", 2), M("grow", 1)>>, <<M("grow", 2), M("shrink", 1)>>, <<M("send", 1), M("other", 1)>>,
                       <<M("give", 1), M("send", 3)>>, <<M("pay", 3)>>, <<M("shrink", 2)>>, <<M("grow", 1), M("paypanic", 2)>> }
+O(x) == M("osend", x)
+\* mixed transactions: ordinary-then-session, session-then-ordinary, three messages; session messages of every class
+MixQ == { <<O(1), M("send", 1)>>, <<O(1), M("send", 3)>>, <<O(1), M("pay", 1)>>, <<O(1), M("other", 1)>>, <<O(1), M("revoke", 1)>>, <<O(1), M("revoke", 2)>>,
+          <<O(1), M("grow", 1)>>, <<O(1), M("grow", 2)>>, <<O(1), M("paypanic", 1)>>, <<O(1), M("give", 1)>>,
+          <<M("send", 1), O(1)>>, <<M("other", 1), O(1)>>, <<M("revoke", 1), O(1)>>, <<M("pay", 1), O(2)>>, <<M("send", 1), O(30)>>,
+          <<O(1), M("pay", 1), M("send", 2)>>, <<O(1), M("send", 1), M("revoke", 1)>>, <<M("send", 1), O(1), M("grow", 1)>>,
+          <<O(30), M("send", 1)>>, <<O(1), O(1), M("other", 1)>> }
 CreatesQ == { C(3, 0, 0, "*"), C(2, 2, 0, "*"), C(3, 0, 2, "*"), C(0, 0, 0, "*"), C(3, 0, 0, "send"), C(3, 2, 0, "exec"), C(3, 0, 0, "execother") }
 F12 == {1, 2}   \* a transaction with a zero fee cannot be expressed (the zero coin loses its denom on the wire and fails Tx.ValidateBasic)
 =============================================================================
